@@ -557,7 +557,8 @@ func fieldOf(v ssa.Value, base ssa.Value, name string) bool {
 }
 
 func runContractiveGate(p *Program, r *RuleResult) {
-	fn := p.Func(typesPkg, "SanityChecksTypeDefinitions")
+	entry := p.Func(typesPkg, "SanityChecksTypeDefinitions")
+	fn := entry
 	view := p.View(fn)
 	name := fnName(fn)
 	// the contractivity call
@@ -565,6 +566,59 @@ func runContractiveGate(p *Program, r *RuleResult) {
 	for _, c := range p.callsIn(fn) {
 		if c.Common().IsInvoke() && c.Common().Method.Name() == "isContractive" {
 			call, _ = c.(*ssa.Call)
+		}
+	}
+	// the loop may have been moved into a function of its own that is handed the definitions
+	// and whose verdict the entry point returns
+	var viaCall *ssa.Call
+	if call == nil {
+		for _, c := range p.callsIn(entry) {
+			hc, ok := c.(*ssa.Call)
+			if !ok {
+				continue
+			}
+			h := hc.Common().StaticCallee()
+			if h == nil || h.Blocks == nil || h.Pkg != entry.Pkg || h.Signature.Results().Len() != 1 || !isErrorType(h.Signature.Results().At(0).Type()) {
+				continue
+			}
+			// the definitions are passed on unchanged, in the same position
+			passes := false
+			for i, a := range hc.Common().Args {
+				if len(entry.Params) > 0 && a == ssa.Value(entry.Params[0]) && i == 0 {
+					passes = true
+				}
+			}
+			if !passes {
+				continue
+			}
+			var inner *ssa.Call
+			for _, c2 := range p.callsIn(h) {
+				if c2.Common().IsInvoke() && c2.Common().Method.Name() == "isContractive" {
+					inner, _ = c2.(*ssa.Call)
+				}
+			}
+			if inner == nil {
+				continue
+			}
+			// verdict handed back: returned directly, or returned on the non-nil edge
+			handed := false
+			for _, u := range *hc.Referrers() {
+				if _, ok := u.(*ssa.Return); ok {
+					handed = true
+				}
+			}
+			for _, b := range view.Blocks() {
+				if view.holdsAt(b, hc, factNonNil) {
+					ins := view.Instrs(b)
+					if ret, ok := ins[len(ins)-1].(*ssa.Return); ok && (ret.Results[0] == ssa.Value(hc) || isErrorValue(ret.Results[0], view, b, map[ssa.Value]bool{})) {
+						handed = true
+					}
+				}
+			}
+			if handed {
+				viaCall, call, fn = hc, inner, h
+				view = p.View(h)
+			}
 		}
 	}
 	if call == nil {
@@ -620,6 +674,20 @@ func runContractiveGate(p *Program, r *RuleResult) {
 				}
 			}
 		}
+		if !pre && viaCall != nil {
+			// the pass may have stayed in the entry point, in front of the call of the helper
+			eview := p.View(entry)
+			for _, c := range p.callsTo(entry, wf) {
+				for _, l := range eview.Loops() {
+					if l.Body[c.Block()] && !l.Body[viaCall.Block()] {
+						hdr := l.Header
+						if eview.passedBefore(viaCall, func(in ssa.Instruction) bool { return in.Block() == hdr }) {
+							pre = true
+						}
+					}
+				}
+			}
+		}
 		v := Holds
 		d := ""
 		if !pre {
@@ -635,7 +703,7 @@ func runContractiveGate(p *Program, r *RuleResult) {
 	var pre *ssa.Function
 	for _, ph := range drv.Phases {
 		g := ph.Common().StaticCallee()
-		for _, c := range p.callsTo(g, fn) {
+		for _, c := range p.callsTo(g, entry) {
 			pre = g
 			call := c.(*ssa.Call)
 			for _, u := range *call.Referrers() {
@@ -790,12 +858,7 @@ func runUnfoldGuard(p *Program, r *RuleResult) {
 			r.add(name, "env-recursion", Holds, p.pos(fn.Pos()), "reads the environment but does not recurse on the entry it read")
 			continue
 		}
-		var visited *ssa.Parameter
-		for _, prm := range fn.Params {
-			if isMapStringBool(prm.Type()) {
-				visited = prm
-			}
-		}
+		visited := holderOf(fn, isMapStringBool)
 		if visited == nil {
 			if why, ok := allow[name]; ok {
 				r.add(name, "env-recursion", Holds, p.pos(fn.Pos()), "allow-listed: "+why)
@@ -810,20 +873,20 @@ func runUnfoldGuard(p *Program, r *RuleResult) {
 			for _, in := range b.Instrs {
 				switch x := in.(type) {
 				case *ssa.Lookup:
-					if x.X == ssa.Value(visited) {
+					if visited.is(x.X) {
 						hasLookup = true
 					}
 				case *ssa.MapUpdate:
-					if x.Map == ssa.Value(visited) {
+					if visited.is(x.Map) {
 						hasUpdate = true
 					}
 				}
 			}
 		}
 		if hasLookup && hasUpdate {
-			r.add(name, "env-recursion", Holds, p.pos(fn.Pos()), "guarded by visited set "+visited.Name())
+			r.add(name, "env-recursion", Holds, p.pos(fn.Pos()), "guarded by a visited set")
 		} else {
-			r.add(name, "env-recursion", Violated, p.pos(fn.Pos()), "the visited set "+visited.Name()+" is not both consulted and extended")
+			r.add(name, "env-recursion", Violated, p.pos(fn.Pos()), "the visited set is not both consulted and extended")
 		}
 	}
 	r.count("recursive environment followers", n)
@@ -972,7 +1035,7 @@ func runModeUniform(p *Program, r *RuleResult) {
 
 // R-MODE-ASSIGN-GUARDED (C16, C10): an annotation written by the user is never overwritten.
 func init() {
-	register(&Rule{Name: "R-MODE-ASSIGN-GUARDED", Min: 7,
+	register(&Rule{Name: "R-MODE-ASSIGN-GUARDED", Min: 3,
 		Doc: "every store to the mode field of an existing type node (outside the constructors and copy functions, which write the field of the node they have just allocated) lies on the branch where that node's current mode was tested to be the unset mode: mode completion only fills in what the user left out",
 		Run: runModeAssignGuarded})
 }
@@ -991,6 +1054,39 @@ func runModeAssignGuarded(p *Program, r *RuleResult) {
 			for _, in := range view.Instrs(b) {
 				st, ok := in.(*ssa.Store)
 				if !ok {
+					continue
+				}
+				if prm, isPrm := st.Addr.(*ssa.Parameter); isPrm {
+					// `*mode = m` in a helper that is handed the address of a node's mode field
+					pt, isPtr := prm.Type().Underlying().(*types.Pointer)
+					if !isPtr || !isNamed(pt.Elem(), typesPkg, "Modality") {
+						continue
+					}
+					n++
+					ord++
+					construct := fmt.Sprintf("store-through-%s#%d", prm.Name(), ord)
+					guarded := false
+					for f := range view.FactsAt(b) {
+						ex, ok := f.v.(*ssa.Extract)
+						if f.k != factTrue || !ok || ex.Index != 1 {
+							continue
+						}
+						ta, ok := ex.Tuple.(*ssa.TypeAssert)
+						if !ok || !ta.CommaOk {
+							continue
+						}
+						if nt := namedOf(ta.AssertedType); nt == nil || nt.Obj() != unset.Obj() {
+							continue
+						}
+						if ld, ok := ta.X.(*ssa.UnOp); ok && ld.X == ssa.Value(prm) {
+							guarded = true
+						}
+					}
+					if guarded {
+						r.add(fnName(fn), construct, Holds, p.instrPos(st), "on the branch where the pointed-to mode was unset")
+					} else {
+						r.add(fnName(fn), construct, Violated, p.instrPos(st), "the mode behind the pointer (a field of an existing type node at the call sites) is overwritten without a test that it was unset: a mode the user wrote is silently replaced")
+					}
 					continue
 				}
 				fa, ok := st.Addr.(*ssa.FieldAddr)
